@@ -235,6 +235,13 @@ class Configs(ProductSystem):
             tags.append("repeated_interface")
         res, ex = fsutil.call(fm.get_intensities, edges, img, cfg["integrate"], cfg["normalize"], cfg["layers"], rescale=rescale, offset=offset)
         viol, known = [], []
+        if ex is not None and cfg["normalize"] == "average" and cfg["integrate"]:
+            raw = []
+            for pts_ in [[(v.x, v.y) for v in be.vertices] for be in edges]:
+                band_, len_ = ref_band(pts_, cfg["layers"], rescale, offset)
+                raw.append(sum(arr[y, x] for (x, y) in band_))
+            if sum(raw) == 0:
+                return {"viol": [], "tags": tags + ["all_zero_no_verdict"], "cls": "allzero", "outdom": True, "obs": None}
         if ex is not None:
             if cfg["list"] in ("repeated", "equal_valued") and isinstance(ex, KeyError):
                 known.append({"id": "F27", "exc": fsutil.exc_str(ex), "list": cfg["list"]})
@@ -251,6 +258,9 @@ class Configs(ProductSystem):
                 exp.append(ref_plain(arr, pts, cfg["layers"], rescale, offset))
         if cfg["normalize"] == "average":
             m = float(np.mean(exp))
+            if m == 0:
+                # every band is empty / dark: 'average' normalisation divides by zero, nothing is promised
+                return {"viol": [], "tags": tags + ["all_zero_no_verdict"], "cls": "allzero", "outdom": True, "obs": None}
             exp = [x / m for x in exp]
         got = [float(res[i]) for i in range(len(edges))] if len(res) == len(edges) else None
         if got is None:
